@@ -4,6 +4,7 @@ import GeosModel.Proofs.Kernel.SegSegCorrect
 import GeosModel.Proofs.Kernel.Parity
 import GeosModel.Proofs.Kernel.DDGrid
 import GeosModel.Proofs.Kernel.CCWTriangle
+import GeosModel.Proofs.Kernel.PolyLocateCorrect
 /-!
 # C07 — orientation, point-in-ring and segment intersection are exact on grid inputs
 
@@ -186,6 +187,34 @@ theorem locateInRing_parity (p : Pt) (ring : List Pt)
     ((edges ring).filter (fun e => crosses p e.1 e.2)).length % 2 =
       ((edges ring).filter (fun e => decide (strictCross (perturbUp n p) (Pt.scale n e.1) (Pt.scale n e.2)))).length % 2 := by
   rw [crossing_edges_eq_perturbed p ring hoff n hn]
+
+/-! ## 2b. point in polygon with holes -/
+
+/-- **envelope_reject_sound**: the envelope shortcuts of the locators never change an answer — a point outside the
+bounding box of a closed ring is EXTERIOR by the even–odd specification (no edge contains it; the edges crossing its
+ray are none, or — box to the right — all the edges changing side of the ray's level, an even number) -/
+theorem envelope_reject_sound (p : Pt) (ring : List Pt) (hc : Closed ring)
+    (h : PolyLocate.envContains ring p = false) : locateInRing p ring = .exterior :=
+  PolyLocate.outside_env_exterior p ring hc h
+
+/-- **polygon_locate_correct**: the ported `SimplePointInAreaLocator::locatePointInSurface` (envelope reject, shell
+test, loop over the holes with per-hole envelope test and early exits) equals the specification
+`Kernel.locateInPolygon` for every polygon with closed rings and every point that is not at once interior to one hole
+and on the boundary of another (no valid polygon has such a point) -/
+theorem polygon_locate_correct (p : Pt) (rings : List (List Pt)) (hc : ∀ r ∈ rings, Closed r)
+    (hsep : PolyLocate.HolesSeparateAt p rings.tail) :
+    PolyLocate.locatePointInPolygon p rings = locateInPolygon p rings :=
+  PolyLocate.locatePointInPolygon_eq p rings hc hsep
+
+/-- the hypotheses are met by a polygon with two holes whose envelopes overlap (a corner triangle and a square in the
+free half of the triangle's envelope), at a point inside the square -/
+example :
+    let shell : List Pt := [⟨0, 0⟩, ⟨20, 0⟩, ⟨20, 20⟩, ⟨0, 20⟩, ⟨0, 0⟩]
+    let tri : List Pt := [⟨2, 2⟩, ⟨2, 18⟩, ⟨18, 2⟩, ⟨2, 2⟩]
+    let sq : List Pt := [⟨12, 12⟩, ⟨14, 12⟩, ⟨14, 14⟩, ⟨12, 14⟩, ⟨12, 12⟩]
+    (∀ r ∈ [shell, tri, sq], Closed r) ∧ PolyLocate.envContains tri ⟨13, 13⟩ = true ∧
+    locateInRing ⟨13, 13⟩ tri = .exterior ∧ locateInRing ⟨13, 13⟩ sq = .interior ∧
+    PolyLocate.locatePointInPolygon ⟨13, 13⟩ [shell, tri, sq] = .exterior := by decide
 
 /-! ## 3. segment / segment -/
 
